@@ -84,7 +84,7 @@ TraceChain ==
 TraceLoad ==
   /\ IsEvent("load")
   /\ LET e == Trace[l]  exp == LoadPlugins(e.has6, e.l6, e.has4, e.l4) IN
-     ("C13" \in Lens) =>
+     ("C13" \in Lens /\ (e.has6 \/ e.has4)) =>                     \* (nothing is stated about a configuration without any section)
         /\ ~e.panic
         /\ e.err = exp.err                                          \* unknown name / failing setup aborts start-up
         /\ ~e.err => e.h4 = exp.h4 /\ e.h6 = exp.h6                 \* exactly the supporting plugins, in file order
